@@ -40,7 +40,10 @@ PLANS = {
     "C13": {"level": "fault_enumeration", "exhaustive": False, "legs": [leg("main", timeout={"quick": 900, "thorough": 3000}), leg("race", flavour="race", tiers=("thorough",), env={"VERIF_SMALL": "1"})]},
     "C14": {"level": "fault_enumeration", "exhaustive": False, "legs": [leg("main"), leg("race", flavour="race", tiers=("thorough",), env={"VERIF_SMALL": "1"})]},
     "C15": {"level": "exploration", "exhaustive": False, "legs": [leg("main")]},
-    "C16": {"level": "exploration", "exhaustive": False, "legs": [leg("main")]},
+    "C16": {"level": "exploration", "exhaustive": False, "replay_flavour": "race",
+            "legs": [leg("main"),
+                     # the first conversions of a process made by 8 goroutines at once, under the race detector
+                     leg("parse-race", leg="parse-race", flavour="race", race_is_violation=True, workers=1)]},
     "C19": {"level": "exploration", "exhaustive": False, "legs": [leg("main")]},
     "C17": {"level": "exploration", "exhaustive": False, "legs": [leg("main")]},
     "C18": {"level": "exploration", "exhaustive": False, "replay_flavour": "race",
